@@ -27,6 +27,7 @@ func init() {
 			"R7":  "the dead dealer/SB label skip is not conditioned on the seat being occupied",
 			"R11": "position updater, every path of both loops: a seat is a position slot iff it is the dealer/SB/BB seat or holds an eligible player (never counted twice, count from 0, full circle from the dealer seat, table rows used for > 2 slots); the head label is given iff the seat's player is eligible and known, consumed without being given iff the seat has no eligible player, the head is dealer/sb and the seat is the dealer/SB seat; one circle from the BB seat; the loop is left when no label remains",
 			"R10": "entry 0 of the hand's player list: the dealer's seat when a dealt-in player holds it, else the nearest active seat counter-clockwise from the SB seat (held) or the BB seat; seat-map entries skipped only when unset (shared with C02.R4)",
+			"R12": "a newly assigned seat's waiting flag is 'initialised ? strictly between dealer and BB, asked for the id seated there after the seat was recorded : false' (shared with C05.R5): a newcomer dealt in between the button and the blinds has no slot in the label hand-out",
 			"R9":  "the dealt-in flags (which decide who gets a label) are copied from the seat manager's eligibility, for every player, after this hand's rotation (shared with C05.R1)",
 			"R8":  "label assignment pairing: the head of the remaining label list goes to the eligible player of the next seat counted from the seat manager's BB seat, found through an id→index map of the same player list",
 		},
@@ -56,6 +57,13 @@ func checkC06(c *Ctx) {
 	lc := p.lifecycle()
 	// R9: who gets a label is decided by the dealt-in flags; they must be this hand's
 	checkDealtInCopy(c, "R9")
+	// R12: a newcomer seated between the button and the big blind must wait (shared with C05.R5) — dealt in there,
+	// he takes a slot of the label hand-out that belongs to the next seat and every label after him slides
+	if smT := c.P.singleImpl("/seat_manager", "SeatManager"); smT != nil {
+		checkAssignWaitingFlag(c, "R12", smT)
+	} else {
+		c.Bad("R12", "anchors", "-", "seat manager not found")
+	}
 	// R10: who is entry 0 of the hand's list (the hand engine's dealer position)
 	checkHandListStart(c, "R10")
 	// position updater: writes non-empty labels to players (non-local store whose value is not an empty slice)
